@@ -59,7 +59,8 @@ def data_instance(rng, iid, cards, extras, nrows, wkind, dags=(), big=False):
         rows[rng.randrange(nrows)]["w"] = [0, 1]
     split = rng.randint(1, nrows - 1) if nrows >= 2 else 0
     n1 = sum(r["w"][0] for r in rows[:split]) if wkind != "frac" else 0
-    nprev = sorted({0, rng.choice([1, 2, 7, 10])} | ({n1} if n1 > 0 else set()))
+    # 0 = n_prev_samples left at its default (None); -1 = an explicit n_prev_samples of zero (Gen_C06!NPrevEff)
+    nprev = sorted({-1, 0, rng.choice([1, 2, 7, 10])} | ({n1} if n1 > 0 else set()))
     return {"id": iid, "cols": cols, "dom": dom, "rows": rows, "split": split, "wkind": wkind,
             "dags": [list(map(list, g)) for g in dags],
             "ess": [[5, 1], _frac(rng.choice([1, 3, 7, 10]), rng.choice([1, 2]))] if not big else [_frac(rng.choice([1, 5, 10, 3]), rng.choice([1, 2]))],
@@ -467,6 +468,8 @@ def replay_one(case, inst, seed, hs, p_nj2=0.0, stub=None):
         arg, lists, strict = state_lists(conc, case, rng, True)
         df2 = make_df(conc, inst, rows2, rng, "expand")
         nprev = case["nprev"] if case["nprev"] else None
+        if nprev == -1:
+            nprev = rng.choice([0, 0.0])
         how = rng.choice(["after_fit", "manual", "manual"])
         detail["how"] = how
         feats["estimator"] = "update"
@@ -751,6 +754,11 @@ def replay_em_one(case, inst, seed, hs, K, stub=None):
         init = {conc.vn[v]: cpd_from(v, init_cells[v], True) for v in given} if init_cells else {}
         ncalls[0] += 1
         kw = dict(lckw)
+        # the E-step works through the distinct data rows in batches: sizes below the number of distinct rows (several batches),
+        # the default and a huge one must all give the specified result
+        bs = rng.choice([None, None, 1, 2, 3, 5, 10 ** 6])
+        if bs is not None:
+            kw["batch_size"] = bs
         mdl = model()
         if seed_ is not None:
             # the random start depends on the seed AND on the parent order of the model: the same construction order every time
